@@ -273,6 +273,10 @@ pub fn history(o: &Opts) -> i32 {
         let probes = valid_probes();
         let reference: Vec<Vec<u8>> = probes.iter().map(|(_, b)| without_timestamp(&exchange(addr, b, t))).collect();
         out.emit(&json!({"ev":"Start","n":n,"history":h["hist"]}));
+        // a server that leaves eight connections in a row unanswered has decided the verdict of this history: the rest of the
+        // history and its probes are skipped (every further connection would only wait for its timeout)
+        let mut unanswered_in_a_row = 0;
+        let mut gave_up = false;
         for (i, k) in h["hist"].as_array().unwrap().iter().enumerate() {
             let kind = k.as_str().unwrap();
             let ev = match kind {
@@ -327,7 +331,19 @@ pub fn history(o: &Opts) -> i32 {
                     json!({"ev":"Conn","kind":"close","flavour":flavour,"answered":false,"status":0,"same":true})
                 }
             };
+            if ev["kind"] != "close" {
+                unanswered_in_a_row = if ev["answered"] == false { unanswered_in_a_row + 1 } else { 0 };
+            }
             out.emit(&ev);
+            if unanswered_in_a_row >= 8 {
+                gave_up = true;
+                break;
+            }
+        }
+        if gave_up {
+            out.emit(&json!({"ev":"Exit","alive":srv.alive()}));
+            srv.stop();
+            continue;
         }
         // probe 1: N-1 silent connections hold N-1 workers; one valid request must still be answered
         std::thread::sleep(Duration::from_millis(30));
